@@ -518,14 +518,28 @@ def optAll {α : Type} (o : Option α) (p : α → Prop) : Prop :=
 instance {α : Type} (o : Option α) (p : α → Prop) [∀ v, Decidable (p v)] : Decidable (optAll o p) := by
   unfold optAll; cases o <;> exact inferInstance
 
-/-- The messages the round-trip theorem speaks about: every field within the range of its C++ type, the documented
-preconditions of the setters, and values the wire format can carry at all:
-* transaction id of 12 bytes (`Q_ASSERT` in `setId`);
-* addresses absent or complete (`addAddress` silently drops a host without port);
-* error code 0 (absent, then with empty phrase) or below 25600 (class and number fit one byte each);
-* ICE tie-breakers empty or 8 bytes and not both (encode writes only one);
-* reservation token of 8 bytes (`setReservationToken` resizes to 8);
-* every length fits its 16-bit field (the body stays below 65536 - 32 bytes).
+/-- The messages the round-trip theorem speaks about.  For each conjunct: can the real API violate it, and what then?
+
+* `type`, `cookie`, `changeRequest`, `priority`, `channelNumber`, `lifetime`, `requestedTransport`: **cannot be violated** —
+  they only say that the model's `Nat` is in the range of the C++ type (`quint16`, `quint32`, `quint8`).
+* `reservationToken` (8 bytes): **cannot be violated** through `setReservationToken` (it resizes to 8) — but for a
+  shorter argument the missing bytes are uninitialised memory: finding `C14:reservation-token-uninitialised`.
+* `size` (attributes below 65536 - 32 bytes): **can be violated** with the setters (`setData` takes any byte array);
+  the lengths wrap and the packet does not decode: finding `C14:oversized-not-decodable`, theorem
+  `C14_defect_oversized_not_decodable`.  Nothing smaller is excluded: strings longer than RFC 5389 allows (USERNAME
+  513, REALM/NONCE/SOFTWARE 763 bytes) are inside `WFMsg` and round-trip.
+* `id` (12 bytes): `setId` has `Q_ASSERT(id.size() == STUN_ID_SIZE)`; violating it is a contract violation the library
+  documents (in a release build the header then is not 20 bytes long and nothing decodes).
+* the remaining conjuncts restrict **public data members**, which have no setter that could check anything, to the values
+  the attribute can have at all — what the wire format can carry:
+  `mapped … xorRelayed`: an address is a host *and* a port; "host without port" and "port without host" are both the
+  library's representation of *absent* (`addAddress`, `toString`) and are encoded as absent;
+  `errLo`/`errHi`/`errNone`: an error code is class·100 + number with one byte each (RFC 5389 §15.6: 300..699); 0 means
+  absent, and then there is no phrase either;
+  `iceControlling`/`iceControlled`: a 64-bit tie-breaker, and an agent has one role (`encode` writes one).
+  Values outside are still covered by the correspondence (the model agrees with `encode`/`decode` on them: truncation of
+  the error code to two bytes, ICE attributes written unpadded and rejected by `decode`), but no round trip is claimed or
+  expected for them.
 Nothing is demanded of the strings here: what happens to them is described by `view`. -/
 structure WFMsg (m : Msg) : Prop where
   type : m.type < 65536
